@@ -276,6 +276,19 @@ theorem C08_composite_rerun_before {rc fx cfg d s rs A isComp innerChanged} (wf 
     (i : Nat) (hm : d.member i) (hcomp : isComp i = true) : rs.fcalls i = 1 :=
   (C08_rest_runs_once wf rank hrank hc hs hr).2 hex i hm (Or.inr (Or.inr (by simp [rerunSet, hk, hcomp])))
 
+/-- clearing only the failure flags is the whole procedure for the file of a run that failed and has
+returned: nothing is left running then (C06), so the graph it gives is the one `resumeFromC` starts from -/
+theorem C08_clear_failed_suffices {cfg d s} (rc : RCfg) (T : Nat → Bool) (wf : WF d) (hc : Cut cfg d s)
+    (hend : s.phase = .exited) : resumeFromFailed rc T d s = resumeFromC rc T d s := by
+  have hq := (C06.C06_nobody_running_exited wf hc hend).2
+  have : (snapshot rc s).clearFailed = (snapshot rc s).clearFlags := by
+    simp only [Snap.clearFailed, Snap.clearFlags, snapshot]
+    congr 1
+    funext i
+    have := hq i
+    cases h : s.st i <;> simp_all
+  simp [resumeFromFailed, resumeFromC, this]
+
 /-! ## (d) checkpoints -/
 
 /-- the cut "child `c` has just finished (and saved the graph); nothing later survives" -/
@@ -668,6 +681,7 @@ end PwVerif.C08
 #print axioms PwVerif.C08.C08_resume_now
 #print axioms PwVerif.C08.C08_no_recall_composite
 #print axioms PwVerif.C08.C08_composite_rerun_before
+#print axioms PwVerif.C08.C08_clear_failed_suffices
 #print axioms PwVerif.C08.C08_resume_mid_partial
 #print axioms PwVerif.C08.C08_recovery_mid
 #print axioms PwVerif.C08.C08_resume_stale_partial
